@@ -102,7 +102,7 @@ class MySQLQueryBuilder(QueryBuilder):
 
         :param value: The modifier value e.g. SQL_CALC_FOUND_ROWS
         """
-        self._modifiers.append(value)
+        self._modifiers = self._modifiers + [value]
 
     def _select_sql(self, ctx: SqlContext) -> str:
         """
